@@ -84,9 +84,17 @@ pub fn search(game: &mut Game, depth: i8, max_time: i64, io_receiver: &IoWrapper
     #[cfg(jence_verif)]
     crate::verif::on_search_end(envir.ply, envir.repetition_table.index, envir.stopping);
 
-    print!("bestmove {}\n", envir.pv_table[0][0].to_uci());
+    //No principal variation yet (stopped before the first move was searched, or the root was cut short): answer with a legal move anyway
+    let mut best_move = envir.pv_table[0][0];
+    if best_move == NULL_MOVE {
+        if let Some(m) = generate_moves(game, MoveTypes::All).legal_values(game).first() {
+            best_move = *m;
+        }
+    }
 
-    SearchResult::new(envir.pv_table[0][0], envir.nodes, score, current_depth - 1, !envir.stopping, envir.tt_hits)
+    print!("bestmove {}\n", best_move.to_uci());
+
+    SearchResult::new(best_move, envir.nodes, score, current_depth - 1, !envir.stopping, envir.tt_hits)
 }
 
 fn enable_pv_scoring(moves: &MoveList, envir: &mut SearchEnv) {
